@@ -301,13 +301,15 @@ func programs(thorough bool) []program {
 			add(nil, []int{i}, []int{j})
 		}
 	}
-	// with one valid share already present: the next add reaches t+1
-	pre := []int{3 - 3 + 15} // placeholder replaced below
-	_ = pre
+	// the same pairs from non-initial states: one valid share present (the next add reaches t+1),
+	// one wrong share present, a full valid pool, a full pool holding a wrong (well-formed) share,
+	// a full pool holding a malformed share
 	preShare := []int{16}
-	for i := 0; i < A; i++ {
-		for j := i; j < A; j++ {
-			add(preShare, []int{i}, []int{j})
+	for _, pre := range [][]int{preShare, {2}, {0, 1}, {2, 1}, {3, 1}} {
+		for i := 0; i < A; i++ {
+			for j := i; j < A; j++ {
+				add(pre, []int{i}, []int{j})
+			}
 		}
 	}
 	// three threads, one operation each
@@ -695,7 +697,7 @@ func main() {
 	run.Set("max_schedules_per_program", me)
 	run.Set("distinct_outcomes_total", totalOutcomes)
 	run.Set("programs_with_more_than_one_outcome", multi)
-	run.Set("rule", "program = sequential pre-history + 2-3 threads with 1-2 operations each over the 14-operation alphabet (all unordered pairs/triples; all 2x2 programs over the 8 core operations; same with one share pre-added) on ONE shared real participant object (n=3,t=1); for each program ALL schedules with at most `preemption_bound` preemptions (per program class) over scheduling points = every Lock/RLock/Unlock/RUnlock of the object's RWMutex (modelled blocking) + every statement of bls_thresholdsign.go methods; each complete schedule yields a call/return history (plus a final sequential observer) that must be linearizable w.r.t. the sequential reference model; <= t+1 shares retained. executions = schedules run; distinct_nontrivial = programs; states = complete executions (stateless search).")
+	run.Set("rule", "program = sequential pre-history + 2-3 threads with 1-2 operations each over the 14-operation alphabet (all unordered pairs from 6 pre-states: empty, one valid share, one wrong share, full valid pool, full pool with a wrong well-formed share, full pool with a malformed share; all unordered triples; all 2x2 programs over the 8 core operations) on ONE shared real participant object (n=3,t=1); for each program ALL schedules with at most `preemption_bound` preemptions (per program class) over scheduling points = every Lock/RLock/Unlock/RUnlock of the object's RWMutex (modelled blocking) + every statement of bls_thresholdsign.go methods; each complete schedule yields a call/return history (plus a final sequential observer) that must be linearizable w.r.t. the sequential reference model; <= t+1 shares retained. executions = schedules run; distinct_nontrivial = programs; states = complete executions (stateless search).")
 	run.Assume("sequentially consistent interleavings at statement granularity of the instrumented Go file; calls into BLS Sign/Verify and C are atomic steps", "RWMutex modelled without writer preference (superset of lock-acquisition orders)", "n=3, t=1, one message/tag; validity of shares decided by byte equality with the library-made shares (threshold arithmetic itself is C06's business)")
 	run.Finish()
 }
